@@ -26,7 +26,7 @@ def oracle_types(signedchar):
         'short': (2, True, 'int'), 'ushort': (2, False, 'int'), 'int': (4, True, 'int'), 'uint': (4, False, 'int'),
         'long': (8, True, 'int'), 'ulong': (8, False, 'int'), 'llong': (8, True, 'int'), 'ullong': (8, False, 'int'),
         'float': (4, None, 'flt'), 'double': (8, None, 'flt'), 'ldouble': (16, None, 'flt'),
-        'ptr': (8, False, 'int'), 'enum_uint': (4, False, 'int'), 'enum_int': (4, True, 'int'),
+        'ptr': (8, False, 'int'), 'nullptr': (8, False, 'int'), 'enum_uint': (4, False, 'int'), 'enum_int': (4, True, 'int'),      # nullptr_t has the representation of a pointer (C23 7.21.2)
         'enum_long': (8, True, 'int'), 'enum_ulong': (8, False, 'int'), 'enum_uchar': (1, False, 'int'), 'enum_short': (2, True, 'int'),
     }
 
@@ -37,6 +37,7 @@ def universe(w):
     u = {n: w.t(n) for n in ['bool', 'char', 'schar', 'uchar', 'short', 'ushort', 'int', 'uint', 'long', 'ulong',
                              'llong', 'ullong', 'float', 'double', 'ldouble']}
     u['ptr'] = w.mkptr(w.t('int'))
+    u['nullptr'] = w.t('nullptr')
     u['enum_uint'] = w.mkenum(w.t('uint'))
     u['enum_int'] = w.mkenum(w.t('int'))
     u['enum_long'] = w.mkenum(w.t('long'))
